@@ -116,6 +116,8 @@ def mk_operand(tag, classes, tau_case="nonneg", offaxis=None, t_case=None):
             elif tau_case == "pos":
                 tau = ctx.new(f"tau{tag}", "+")
                 ctx.hyp(f_rel(Poly.var(tau), ">"), pre=True)
+            elif tau_case == "free":
+                tau = ctx.new(f"tau{tag}")          # any finite value, no representability assumption
             else:
                 tau = ctx.new(f"tau{tag}", "-")
                 ctx.hyp(f_rel(Poly.var(tau), "<"), pre=True)
@@ -300,7 +302,7 @@ def sample_inputs(ctx, rng, style="generic"):
                 env[vs["t"]] = -abs(env[vs["t"]]) - mp.mpf("0.01")
         if "tau" in vs:
             c = d.get("tau_case", "nonneg")
-            env[vs["tau"]] = (pos() if c in ("nonneg", "pos") else -pos() * mp.mpf("0.3"))
+            env[vs["tau"]] = (pos() if c in ("nonneg", "pos") else (real() * 3 if c == "free" else -pos() * mp.mpf("0.3")))
     return env
 
 
